@@ -655,7 +655,13 @@ def run_iter(res, ast):
                     it = unwrap(loops[0]["expr"])
                     if it["t"] == "Index" and unwrap(it["expr"])["t"] == "PathExpr" and unwrap(it["expr"])["path"]["name"] == arr:
                         r = strip_paren(it["index"])
-                        if r["t"] == "Range" and not r["closed"] and idx_name(r["start"]) == cur and idx_name(r["end"]) == size:
+                        if r["t"] == "PathExpr":
+                            # the range was given a name just before the loop
+                            defs_ = [l_ for l_ in walk_t(a["body"], "Local") if l_["pat"]["t"] == "PIdent" and l_["pat"]["name"] == r["path"]["name"]
+                                     and not l_["pat"]["mut"] and l_.get("init") is not None and strip_paren(l_["init"])["t"] == "Range"]
+                            if len(defs_) == 1 and before(defs_[0], loops[0]):
+                                r = strip_paren(defs_[0]["init"])
+                        if r["t"] == "Range" and not r["closed"] and r.get("start") is not None and r.get("end") is not None and idx_name(r["start"]) == cur and idx_name(r["end"]) == size:
                             ev = loops[0]["pat"].get("name")
                             ps = block_paths(loops[0]["body"])
                             if len(ps) == 1:
